@@ -518,8 +518,13 @@ func (p *Packer) validSymlink(root, path, target string) (bool, error) {
 		absTarget = filepath.Join(filepath.Dir(absPath), target)
 	}
 
-	// Target falls within root.
-	if strings.HasPrefix(absTarget, absRoot) {
+	// Target falls within root. The comparison has to respect path component
+	// boundaries: "/a/root-other" has the prefix "/a/root" but is outside it.
+	rootPrefix := absRoot
+	if !strings.HasSuffix(rootPrefix, string(os.PathSeparator)) {
+		rootPrefix += string(os.PathSeparator)
+	}
+	if absTarget == absRoot || strings.HasPrefix(absTarget, rootPrefix) {
 		return true, nil
 	}
 
